@@ -21,20 +21,20 @@ Proof.
     + rewrite Nat2N.inj_succ, N.pow_succ_r' in Hv. apply N.div_lt_upper_bound; lia.
 Qed.
 
-Lemma take_app a rest : take (N.of_nat (length a)) (a ++ rest) = ROk a rest.
+Lemma take_app a rest : btc_take (N.of_nat (length a)) (a ++ rest) = ROk a rest.
 Proof.
-  unfold take. rewrite app_length, Nat2N.inj_add.
+  unfold btc_take. rewrite app_length, Nat2N.inj_add.
   replace (N.of_nat (length a) <=? N.of_nat (length a) + N.of_nat (length rest)) with true
     by (symmetry; apply N.leb_le; lia).
   rewrite Nat2N.id. rewrite firstn_app, Nat.sub_diag, firstn_all. cbn [firstn]. rewrite app_nil_r.
   rewrite skipn_app, Nat.sub_diag, skipn_all. reflexivity.
 Qed.
 
-Lemma read_le_enc n v rest : v < 256 ^ N.of_nat n -> read_le n (le_bytes n v ++ rest) = ROk v rest.
+Lemma read_le_enc n v rest : v < 256 ^ N.of_nat n -> btc_read_le n (le_bytes n v ++ rest) = ROk v rest.
 Proof.
-  intros Hv. unfold read_le.
+  intros Hv. unfold btc_read_le.
   replace (N.of_nat n) with (N.of_nat (length (le_bytes n v))) by (rewrite le_bytes_length; reflexivity).
-  rewrite take_app. cbn [rbind]. rewrite le_val_le_bytes by exact Hv. reflexivity.
+  rewrite take_app. cbn [btc_rbind]. rewrite le_val_le_bytes by exact Hv. reflexivity.
 Qed.
 
 Lemma i32_roundtrip v : (-2147483648 <= v < 2147483648)%Z -> i32_of_u32 (u32_of_i32 v) = v.
@@ -63,9 +63,9 @@ Proof.
     cbn [length]; lia.
 Qed.
 
-Lemma csize_roundtrip n rest : n < U64LIM -> csize_dec (csize_enc n ++ rest) = ROk n rest.
+Lemma csize_roundtrip n rest : n < BTC_U64LIM -> csize_dec (csize_enc n ++ rest) = ROk n rest.
 Proof.
-  unfold U64LIM. intros Hn. unfold csize_enc.
+  unfold BTC_U64LIM. intros Hn. unfold csize_enc.
   destruct (n <=? 252) eqn:H1.
   - apply N.leb_le in H1. cbn [app csize_dec].
     replace (n =? 255) with false by (symmetry; apply N.eqb_neq; lia).
@@ -75,16 +75,16 @@ Proof.
   - apply N.leb_gt in H1. destruct (n <=? 65535) eqn:H2.
     + apply N.leb_le in H2. cbn [app csize_dec].
       change (253 =? 255) with false. change (253 =? 254) with false. change (253 =? 253) with true.
-      cbv iota. rewrite read_le_enc by (change (256 ^ N.of_nat 2) with 65536; lia). cbn [rbind].
+      cbv iota. rewrite read_le_enc by (change (256 ^ N.of_nat 2) with 65536; lia). cbn [btc_rbind].
       replace (n <? 253) with false by (symmetry; apply N.ltb_ge; lia). reflexivity.
     + apply N.leb_gt in H2. destruct (n <=? 4294967295) eqn:H3.
       * apply N.leb_le in H3. cbn [app csize_dec].
         change (254 =? 255) with false. change (254 =? 254) with true.
-        cbv iota. rewrite read_le_enc by (change (256 ^ N.of_nat 4) with 4294967296; lia). cbn [rbind].
+        cbv iota. rewrite read_le_enc by (change (256 ^ N.of_nat 4) with 4294967296; lia). cbn [btc_rbind].
         replace (n <? 65536) with false by (symmetry; apply N.ltb_ge; lia). reflexivity.
       * apply N.leb_gt in H3. cbn [app csize_dec].
         change (255 =? 255) with true.
-        cbv iota. rewrite read_le_enc by (change (256 ^ N.of_nat 8) with 18446744073709551616; lia). cbn [rbind].
+        cbv iota. rewrite read_le_enc by (change (256 ^ N.of_nat 8) with 18446744073709551616; lia). cbn [btc_rbind].
         replace (n <? 4294967296) with false by (symmetry; apply N.ltb_ge; lia). reflexivity.
 Qed.
 
@@ -96,48 +96,48 @@ Lemma csize_nonminimal_rejected :
 Proof.
   repeat split; intros x rest Hx; cbn [csize_dec].
   - change (253 =? 255) with false. change (253 =? 254) with false. change (253 =? 253) with true. cbv iota.
-    rewrite read_le_enc by (change (256 ^ N.of_nat 2) with 65536; lia). cbn [rbind].
+    rewrite read_le_enc by (change (256 ^ N.of_nat 2) with 65536; lia). cbn [btc_rbind].
     replace (x <? 253) with true by (symmetry; apply N.ltb_lt; lia). reflexivity.
   - change (254 =? 255) with false. change (254 =? 254) with true. cbv iota.
-    rewrite read_le_enc by (change (256 ^ N.of_nat 4) with 4294967296; lia). cbn [rbind].
+    rewrite read_le_enc by (change (256 ^ N.of_nat 4) with 4294967296; lia). cbn [btc_rbind].
     replace (x <? 65536) with true by (symmetry; apply N.ltb_lt; lia). reflexivity.
   - change (255 =? 255) with true. cbv iota.
-    rewrite read_le_enc by (change (256 ^ N.of_nat 8) with 18446744073709551616; lia). cbn [rbind].
+    rewrite read_le_enc by (change (256 ^ N.of_nat 8) with 18446744073709551616; lia). cbn [btc_rbind].
     replace (x <? 4294967296) with true by (symmetry; apply N.ltb_lt; lia). reflexivity.
 Qed.
 
 (* ---------- length-prefixed byte strings ---------- *)
-Lemma dec_bytes_enc b rest : lenb (length b) = true -> dec_bytes (enc_bytes b ++ rest) = ROk b rest.
+Lemma dec_bytes_enc b rest : len_wf (length b) = true -> btc_dec_bytes (btc_enc_bytes b ++ rest) = ROk b rest.
 Proof.
-  unfold lenb. intros Hl. apply N.ltb_lt in Hl. unfold dec_bytes, enc_bytes.
-  rewrite <- app_assoc, csize_roundtrip by exact Hl. cbn [rbind]. apply take_app.
+  unfold len_wf. intros Hl. apply N.ltb_lt in Hl. unfold btc_dec_bytes, btc_enc_bytes.
+  rewrite <- app_assoc, csize_roundtrip by exact Hl. cbn [btc_rbind]. apply take_app.
 Qed.
 
-Lemma enc_bytes_nonempty b : (1 <= length (enc_bytes b))%nat.
-Proof. unfold enc_bytes. rewrite app_length. pose proof (csize_enc_nonempty (N.of_nat (length b))). lia. Qed.
+Lemma enc_bytes_nonempty b : (1 <= length (btc_enc_bytes b))%nat.
+Proof. unfold btc_enc_bytes. rewrite app_length. pose proof (csize_enc_nonempty (N.of_nat (length b))). lia. Qed.
 
 (* ---------- vectors ---------- *)
-Lemma dec_items_0 {A} (item : bytes -> res A) fuel inp : dec_items item fuel 0 inp = ROk [] inp.
+Lemma dec_items_0 {A} (item : bytes -> dres A) fuel inp : btc_dec_items item fuel 0 inp = ROk [] inp.
 Proof. destruct fuel; reflexivity. Qed.
 
-Lemma dec_items_S {A} (item : bytes -> res A) fuel n inp :
+Lemma dec_items_S {A} (item : bytes -> dres A) fuel n inp :
   n <> 0 ->
-  dec_items item (S fuel) n inp =
-  rbind (item inp) (fun a r => rbind (dec_items item fuel (n - 1) r) (fun l r' => ROk (a :: l) r')).
+  btc_dec_items item (S fuel) n inp =
+  btc_rbind (item inp) (fun a r => btc_rbind (btc_dec_items item fuel (n - 1) r) (fun l r' => ROk (a :: l) r')).
 Proof.
-  intros Hn. cbn [dec_items]. destruct (n =? 0) eqn:E; [apply N.eqb_eq in E; contradiction|reflexivity].
+  intros Hn. cbn [btc_dec_items]. destruct (n =? 0) eqn:E; [apply N.eqb_eq in E; contradiction|reflexivity].
 Qed.
 
-Lemma dec_items_enc {A} (item : bytes -> res A) (enc : A -> bytes) (g : A -> A) xs :
+Lemma dec_items_enc {A} (item : bytes -> dres A) (enc : A -> bytes) (g : A -> A) xs :
   (forall x, In x xs -> forall rest, item (enc x ++ rest) = ROk (g x) rest) ->
   forall fuel rest, (length xs <= fuel)%nat ->
-  dec_items item fuel (N.of_nat (length xs)) (flat_map enc xs ++ rest) = ROk (map g xs) rest.
+  btc_dec_items item fuel (N.of_nat (length xs)) (flat_map enc xs ++ rest) = ROk (map g xs) rest.
 Proof.
   induction xs as [|x xs IH]; intros Hitem fuel rest Hf.
   - cbn. apply dec_items_0.
   - cbn [length] in Hf. destruct fuel as [|f]; [lia|].
     cbn [length flat_map map]. rewrite dec_items_S by lia.
-    rewrite <- app_assoc, Hitem by (left; reflexivity). cbn [rbind].
+    rewrite <- app_assoc, Hitem by (left; reflexivity). cbn [btc_rbind].
     replace (N.of_nat (S (length xs)) - 1) with (N.of_nat (length xs)) by lia.
     rewrite IH; [reflexivity| |lia]. intros y Hy. apply Hitem. right. exact Hy.
 Qed.
@@ -151,14 +151,14 @@ Proof.
   lia.
 Qed.
 
-Lemma dec_vec_enc {A} (item : bytes -> res A) (enc : A -> bytes) (g : A -> A) xs rest :
-  lenb (length xs) = true ->
+Lemma dec_vec_enc {A} (item : bytes -> dres A) (enc : A -> bytes) (g : A -> A) xs rest :
+  len_wf (length xs) = true ->
   (forall x, In x xs -> (1 <= length (enc x))%nat) ->
   (forall x, In x xs -> forall rest, item (enc x ++ rest) = ROk (g x) rest) ->
-  dec_vec item (enc_vec enc xs ++ rest) = ROk (map g xs) rest.
+  btc_dec_vec item (btc_enc_vec enc xs ++ rest) = ROk (map g xs) rest.
 Proof.
-  unfold lenb. intros Hl Hne Hitem. apply N.ltb_lt in Hl. unfold dec_vec, enc_vec.
-  rewrite <- app_assoc, csize_roundtrip by exact Hl. cbn [rbind].
+  unfold len_wf. intros Hl Hne Hitem. apply N.ltb_lt in Hl. unfold btc_dec_vec, btc_enc_vec.
+  rewrite <- app_assoc, csize_roundtrip by exact Hl. cbn [btc_rbind].
   apply dec_items_enc; [exact Hitem|]. rewrite app_length.
   pose proof (flat_map_length_ge enc xs Hne). lia.
 Qed.
@@ -170,8 +170,8 @@ Definition strip_witness (i : txin) : txin :=
 
 Lemma txin_wf_inv i :
   txin_wf i = true ->
-  N.of_nat (length (txi_txid i)) = TXID_LEN /\ txi_vout i < U32LIM /\
-  lenb (length (txi_script i)) = true /\ txi_seq i < U32LIM /\ witness_wf (txi_witness i) = true.
+  N.of_nat (length (txi_txid i)) = BTC_TXID_LEN /\ txi_vout i < BTC_U32LIM /\
+  len_wf (length (txi_script i)) = true /\ txi_seq i < BTC_U32LIM /\ witness_wf (txi_witness i) = true.
 Proof.
   unfold txin_wf. intros Hw. repeat (apply andb_true_iff in Hw as [Hw ?]).
   repeat split; try assumption; try (apply N.ltb_lt; assumption). apply N.eqb_eq. assumption.
@@ -179,27 +179,27 @@ Qed.
 
 Lemma dec_txin_enc i rest : txin_wf i = true -> dec_txin (enc_txin i ++ rest) = ROk (strip_witness i) rest.
 Proof.
-  intros Hw. apply txin_wf_inv in Hw as (Hid & Hvout & Hsl & Hseq & _). unfold U32LIM in *.
-  unfold dec_txin, enc_txin. rewrite <- !app_assoc. rewrite <- Hid, take_app. cbn [rbind].
-  rewrite read_le_enc by (change (256 ^ N.of_nat 4) with 4294967296; exact Hvout). cbn [rbind].
-  rewrite dec_bytes_enc by exact Hsl. cbn [rbind].
-  rewrite read_le_enc by (change (256 ^ N.of_nat 4) with 4294967296; exact Hseq). cbn [rbind].
+  intros Hw. apply txin_wf_inv in Hw as (Hid & Hvout & Hsl & Hseq & _). unfold BTC_U32LIM in *.
+  unfold dec_txin, enc_txin. rewrite <- !app_assoc. rewrite <- Hid, take_app. cbn [btc_rbind].
+  rewrite read_le_enc by (change (256 ^ N.of_nat 4) with 4294967296; exact Hvout). cbn [btc_rbind].
+  rewrite dec_bytes_enc by exact Hsl. cbn [btc_rbind].
+  rewrite read_le_enc by (change (256 ^ N.of_nat 4) with 4294967296; exact Hseq). cbn [btc_rbind].
   reflexivity.
 Qed.
 
 Lemma enc_txin_nonempty i : txin_wf i = true -> (1 <= length (enc_txin i))%nat.
 Proof.
   intros Hw. apply txin_wf_inv in Hw as (Hid & _). unfold enc_txin. rewrite app_length.
-  unfold TXID_LEN in Hid. lia.
+  unfold BTC_TXID_LEN in Hid. lia.
 Qed.
 
 Lemma dec_txout_enc o rest : txout_wf o = true -> dec_txout (enc_txout o ++ rest) = ROk o rest.
 Proof.
   unfold txout_wf. intros Hw. repeat (apply andb_true_iff in Hw as [Hw ?]).
-  apply N.ltb_lt in Hw. unfold U64LIM in Hw.
+  apply N.ltb_lt in Hw. unfold BTC_U64LIM in Hw.
   unfold dec_txout, enc_txout. rewrite <- !app_assoc.
-  rewrite read_le_enc by (change (256 ^ N.of_nat 8) with 18446744073709551616; exact Hw). cbn [rbind].
-  rewrite dec_bytes_enc by assumption. cbn [rbind]. destruct o; reflexivity.
+  rewrite read_le_enc by (change (256 ^ N.of_nat 8) with 18446744073709551616; exact Hw). cbn [btc_rbind].
+  rewrite dec_bytes_enc by assumption. cbn [btc_rbind]. destruct o; reflexivity.
 Qed.
 
 Lemma enc_txout_nonempty o : (1 <= length (enc_txout o))%nat.
@@ -222,7 +222,7 @@ Qed.
 
 Lemma dec_wit_items_enc ws :
   forall fuel acc rest, (length ws <= fuel)%nat -> acc + wit_size ws <= MAX_VEC_SIZE ->
-  dec_wit_items fuel (N.of_nat (length ws)) acc (flat_map enc_bytes ws ++ rest) = ROk ws rest.
+  dec_wit_items fuel (N.of_nat (length ws)) acc (flat_map btc_enc_bytes ws ++ rest) = ROk ws rest.
 Proof.
   unfold MAX_VEC_SIZE. induction ws as [|e ws IH]; intros fuel acc rest Hf Hsz.
   - cbn. apply dec_wit_items_0.
@@ -230,11 +230,11 @@ Proof.
     cbn [length flat_map]. rewrite dec_wit_items_S by lia.
     cbn [wit_size fold_right] in Hsz. fold (wit_size ws) in Hsz.
     pose proof (csize_len_pos (N.of_nat (length e))) as Hpos.
-    unfold wit_step, enc_bytes at 1. rewrite <- !app_assoc.
-    rewrite csize_roundtrip by (unfold U64LIM; lia). cbn [rbind].
+    unfold wit_step, btc_enc_bytes at 1. rewrite <- !app_assoc.
+    rewrite csize_roundtrip by (unfold BTC_U64LIM; lia). cbn [btc_rbind].
     replace (MAX_VEC_SIZE <? acc + N.of_nat (length e) + csize_len (N.of_nat (length e))) with false
       by (symmetry; apply N.ltb_ge; unfold MAX_VEC_SIZE; lia).
-    rewrite take_app. cbn [rbind].
+    rewrite take_app. cbn [btc_rbind].
     replace (N.of_nat (S (length ws)) - 1) with (N.of_nat (length ws)) by lia.
     rewrite IH; [reflexivity|lia|lia].
 Qed.
@@ -249,12 +249,12 @@ Qed.
 Lemma dec_witness_enc w rest : witness_wf w = true -> dec_witness (enc_witness w ++ rest) = ROk w rest.
 Proof.
   intros Hw. apply witness_wf_inv in Hw as [Hn Hsz]. unfold MAX_VEC_SIZE in *.
-  unfold dec_witness, enc_witness, enc_vec. rewrite <- app_assoc.
-  rewrite csize_roundtrip by (unfold U64LIM; lia). cbn [rbind].
+  unfold dec_witness, enc_witness, btc_enc_vec. rewrite <- app_assoc.
+  rewrite csize_roundtrip by (unfold BTC_U64LIM; lia). cbn [btc_rbind].
   replace (MAX_VEC_SIZE <? N.of_nat (length w)) with false
     by (symmetry; apply N.ltb_ge; unfold MAX_VEC_SIZE; lia).
   apply dec_wit_items_enc; [|unfold MAX_VEC_SIZE; lia].
-  rewrite app_length. pose proof (flat_map_length_ge enc_bytes w (fun x _ => enc_bytes_nonempty x)). lia.
+  rewrite app_length. pose proof (flat_map_length_ge btc_enc_bytes w (fun x _ => enc_bytes_nonempty x)). lia.
 Qed.
 
 Lemma dec_witnesses_enc ins rest :
@@ -264,8 +264,8 @@ Lemma dec_witnesses_enc ins rest :
 Proof.
   induction ins as [|i ins IH]; intros Hw; [reflexivity|].
   cbn [forallb] in Hw. apply andb_true_iff in Hw as [Hi Hw].
-  cbn [map flat_map dec_witnesses]. rewrite <- app_assoc, dec_witness_enc by exact Hi. cbn [rbind].
-  rewrite IH by exact Hw. cbn [rbind]. destruct i; reflexivity.
+  cbn [map flat_map dec_witnesses]. rewrite <- app_assoc, dec_witness_enc by exact Hi. cbn [btc_rbind].
+  rewrite IH by exact Hw. cbn [btc_rbind]. destruct i; reflexivity.
 Qed.
 
 (* ---------- the transaction ---------- *)
@@ -275,7 +275,7 @@ Proof.
 Qed.
 
 Lemma strip_all_empty ins :
-  forallb (fun i => is_nil (txi_witness i)) ins = true -> map strip_witness ins = ins.
+  forallb (fun i => btc_is_nil (txi_witness i)) ins = true -> map strip_witness ins = ins.
 Proof.
   induction ins as [|i ins IH]; intros Hf; [reflexivity|].
   cbn [forallb] in Hf. apply andb_true_iff in Hf as [Hi Hf]. cbn [map]. rewrite IH by exact Hf.
@@ -294,46 +294,46 @@ Proof.
   unfold tx_wf. intros Hw. repeat (apply andb_true_iff in Hw as [Hw ?]).
   apply Z.leb_le in Hw.
   match goal with H : (btx_version t <? _)%Z = true |- _ => apply Z.ltb_lt in H; rename H into Hv end.
-  match goal with H : (btx_lock t <? U32LIM) = true |- _ => apply N.ltb_lt in H; rename H into Hlock end.
+  match goal with H : (btx_lock t <? BTC_U32LIM) = true |- _ => apply N.ltb_lt in H; rename H into Hlock end.
   match goal with H : forallb txin_wf _ = true |- _ => rename H into Hins end.
   match goal with H : forallb txout_wf _ = true |- _ => rename H into Houts end.
-  match goal with H : lenb (length (btx_in t)) = true |- _ => rename H into Hlin end.
-  match goal with H : lenb (length (btx_out t)) = true |- _ => rename H into Hlout end.
-  unfold U32LIM in Hlock.
-  assert (Hdin : forall r, dec_vec dec_txin (enc_vec enc_txin (btx_in t) ++ r) = ROk (map strip_witness (btx_in t)) r).
+  match goal with H : len_wf (length (btx_in t)) = true |- _ => rename H into Hlin end.
+  match goal with H : len_wf (length (btx_out t)) = true |- _ => rename H into Hlout end.
+  unfold BTC_U32LIM in Hlock.
+  assert (Hdin : forall r, btc_dec_vec dec_txin (btc_enc_vec enc_txin (btx_in t) ++ r) = ROk (map strip_witness (btx_in t)) r).
   { intros r. apply dec_vec_enc; [exact Hlin| |].
     - intros x Hx. apply enc_txin_nonempty. rewrite forallb_forall in Hins. exact (Hins x Hx).
     - intros x Hx r'. apply dec_txin_enc. rewrite forallb_forall in Hins. exact (Hins x Hx). }
-  assert (Hdout : forall r, dec_vec dec_txout (enc_vec enc_txout (btx_out t) ++ r) = ROk (btx_out t) r).
+  assert (Hdout : forall r, btc_dec_vec dec_txout (btc_enc_vec enc_txout (btx_out t) ++ r) = ROk (btx_out t) r).
   { intros r. rewrite <- (map_id (btx_out t)) at 2. apply dec_vec_enc; [exact Hlout| |].
     - intros x _. apply enc_txout_nonempty.
     - intros x Hx r'. apply dec_txout_enc. rewrite forallb_forall in Houts. exact (Houts x Hx). }
-  assert (Hver : forall r, read_le 4 (le_bytes 4 (u32_of_i32 (btx_version t)) ++ r) = ROk (u32_of_i32 (btx_version t)) r).
+  assert (Hver : forall r, btc_read_le 4 (le_bytes 4 (u32_of_i32 (btx_version t)) ++ r) = ROk (u32_of_i32 (btx_version t)) r).
   { intros r. apply read_le_enc. change (256 ^ N.of_nat 4) with 4294967296. apply u32_of_i32_range. }
-  assert (Hlk : forall r, read_le 4 (le_bytes 4 (btx_lock t) ++ r) = ROk (btx_lock t) r).
+  assert (Hlk : forall r, btc_read_le 4 (le_bytes 4 (btx_lock t) ++ r) = ROk (btx_lock t) r).
   { intros r. apply read_le_enc. change (256 ^ N.of_nat 4) with 4294967296. exact Hlock. }
-  unfold parse_tx, tx_encode. rewrite <- !app_assoc, Hver. cbn [rbind].
+  unfold parse_tx, tx_encode. rewrite <- !app_assoc, Hver. cbn [btc_rbind].
   destruct (uses_segwit t) eqn:Hseg.
   - (* BIP-144 form: marker 0 reads as an empty input vector, then the flag *)
-    unfold SEGWIT_MARKER, SEGWIT_FLAG. cbn [app]. unfold dec_vec at 1. cbn [csize_dec].
+    unfold SEGWIT_MARKER, SEGWIT_FLAG. cbn [app]. unfold btc_dec_vec at 1. cbn [csize_dec].
     change (0 =? 255) with false. change (0 =? 254) with false. change (0 =? 253) with false. cbv iota.
-    cbn [rbind]. rewrite dec_items_0. cbn [rbind].
+    cbn [btc_rbind]. rewrite dec_items_0. cbn [btc_rbind].
     change (1 :: ?x) with (le_bytes 1 1 ++ x).
-    rewrite read_le_enc by (change (256 ^ N.of_nat 1) with 256; lia). cbn [rbind].
+    rewrite read_le_enc by (change (256 ^ N.of_nat 1) with 256; lia). cbn [btc_rbind].
     change (1 =? 1) with true. cbv iota.
-    rewrite <- !app_assoc, Hdin. cbn [rbind]. rewrite Hdout. cbn [rbind].
-    rewrite dec_witnesses_enc by (apply txin_wf_witness; exact Hins). cbn [rbind].
-    replace (negb (is_nil (btx_in t)) && forallb (fun i => is_nil (txi_witness i)) (btx_in t)) with false.
-    + rewrite Hlk. cbn [rbind]. rewrite i32_roundtrip by lia. destruct t; reflexivity.
+    rewrite <- !app_assoc, Hdin. cbn [btc_rbind]. rewrite Hdout. cbn [btc_rbind].
+    rewrite dec_witnesses_enc by (apply txin_wf_witness; exact Hins). cbn [btc_rbind].
+    replace (negb (btc_is_nil (btx_in t)) && forallb (fun i => btc_is_nil (txi_witness i)) (btx_in t)) with false.
+    + rewrite Hlk. cbn [btc_rbind]. rewrite i32_roundtrip by lia. destruct t; reflexivity.
     + unfold uses_segwit in Hseg. rewrite existsb_negb_forallb in Hseg.
-      destruct (forallb (fun i => is_nil (txi_witness i)) (btx_in t)); destruct (is_nil (btx_in t));
+      destruct (forallb (fun i => btc_is_nil (txi_witness i)) (btx_in t)); destruct (btc_is_nil (btx_in t));
         cbn in *; congruence.
   - (* legacy form: there is at least one input and no witness data *)
     unfold uses_segwit in Hseg. apply orb_false_iff in Hseg as [Hex Hnil].
     rewrite existsb_negb_forallb in Hex. apply negb_false_iff in Hex.
-    rewrite <- !app_assoc, Hdin. cbn [rbind]. rewrite strip_all_empty by exact Hex.
+    rewrite <- !app_assoc, Hdin. cbn [btc_rbind]. rewrite strip_all_empty by exact Hex.
     destruct (btx_in t) as [|i ins] eqn:Hin; [discriminate|].
-    rewrite Hdout. cbn [rbind]. rewrite Hlk. cbn [rbind]. rewrite i32_roundtrip by lia.
+    rewrite Hdout. cbn [btc_rbind]. rewrite Hlk. cbn [btc_rbind]. rewrite i32_roundtrip by lia.
     destruct t; cbn in *; subst; reflexivity.
 Qed.
 
